@@ -54,7 +54,7 @@ def make_plan(seed: int, tier: str, opts: dict) -> dict:
     return dict(spec=spec, seed=seed, episodes=eps, clock="wall" if wall else "sim", line_rate=0.0, compile=cc)
 
 
-def _row_vs_event(rec_steps, k, ev, input_names, settings, shift: float = 0.0):
+def _row_vs_event(rec_steps, k, ev, input_names, settings, shift: float = 0.0, tol: float = 1e-9):
     """Compare recorded row k with the probe's event of tick k. Returns None or (field, recorded, actual)."""
     if int(onp.asarray(rec_steps.seq)[k]) != ev["seq"]:
         return "seq", int(onp.asarray(rec_steps.seq)[k]), ev["seq"]
@@ -67,7 +67,7 @@ def _row_vs_event(rec_steps, k, ev, input_names, settings, shift: float = 0.0):
         if abs(float(onp.asarray(rec_steps.ts_start)[k]) - (seen + shift)) > 2e-6:
             return "ts_start (after the step moved it)", float(onp.asarray(rec_steps.ts_start)[k]), seen + shift
     b_, e_, d_ = (float(onp.asarray(getattr(rec_steps, f))[k]) for f in ("ts_start", "ts_end", "delay"))
-    if abs((e_ - b_) - d_) > 1e-9:
+    if abs((e_ - b_) - d_) > tol:  # float64 arithmetic in the threaded record, float32 in the compiled one
         return "delay (ts_end - ts_start)", d_, e_ - b_
     if rec_steps.rng is not None:
         rr = onp.asarray(rec_steps.rng)[k].reshape(-1).tolist()
@@ -211,7 +211,7 @@ def run_plan(plan: dict, replay=None) -> dict:
                         viol.append(dict(clause="c13-compiled-row-never-executed-is-not--1", signature="c13-comp-unexec", node=nme, tick=k, seq=int(seqs[k]), compile=cc))
                     continue
                 c_rows += 1
-                d = _row_vs_event(steps, k, ev, input_names, cc["record"])
+                d = _row_vs_event(steps, k, ev, input_names, cc["record"], tol=2e-6)
                 if d is not None:
                     viol.append(dict(clause="c13-compiled-recorded-row-differs-from-what-the-step-used", signature="c13-comp-row:" + d[0].split("[")[0], node=nme, tick=k, field=d[0], recorded=str(d[1])[:200], actual=str(d[2])[:200],
                                      compile=cc))
